@@ -44,7 +44,10 @@ func (c *octx) terminated() *eng.Violation {
 	if c.res.Deadlock && c.prop == "C08" {
 		return c.viol("lower", "mutually dependent executions (barrier of min(c,n) items) made no progress: fewer than c items run simultaneously; %v", c.res.Blocked)
 	}
-	if c.res.Deadlock || c.res.StepLimit {
+	if c.res.StepLimit {
+		return c.viol("hang", "the run did not end within %d scheduler steps (the model's path has at most %d node visits): it keeps executing; tasks: %v", c.res.Steps, visitCap, c.res.Blocked)
+	}
+	if c.res.Deadlock {
 		return c.viol("hang", "the run made no progress (no enabled task, no pending timer): %v", c.res.Blocked)
 	}
 	if len(c.obs.Runs) != len(c.mod.Runs) {
